@@ -217,4 +217,131 @@ theorem split_e3 (e c n : Nat) (data : List Nat) (s0 : Int) (fs : Rat) (l : List
   subst hm
   simp [construct, shapeM2, shapeM3, hl, a, map_mul_range, cart_std3, pick_range data _ hd]
 
+/-! ### `concat` of arbitrary adjacent pieces -/
+
+theorem blocks_eq (L : Nat) : ∀ (outer : Nat) (d : List Nat),
+    blocks L outer d = (List.range outer).map fun i => (d.drop (i * L)).take L
+  | 0, _ => rfl
+  | k + 1, d => by
+    simp only [blocks]
+    split
+    · rename_i h0; subst h0
+      simp [List.replicate_succ, List.range_succ_eq_map, Function.comp_def]
+      symm; rw [List.eq_replicate_iff]; simp
+    · rw [blocks_eq L k (d.drop L), List.range_succ_eq_map]
+      simp only [List.map_cons, Nat.zero_mul, List.drop_zero, List.map_map, Function.comp_def, List.drop_drop]
+      congr 1
+      apply List.map_congr_left
+      intro i _
+      rw [Nat.succ_mul, Nat.add_comm]
+
+/-- block length of an array along axis `ax`. -/
+def blockLen (ax : Nat) (sh : List Nat) : Nat := prod (sh.drop ax)
+
+/-- the simplest description of `np.concatenate`: for every outer index, the blocks of all pieces in turn. -/
+def joinData (ax outer : Nat) (arrs : List (List Nat × List Nat)) : List Nat :=
+  (List.range outer).flatMap fun i => arrs.flatMap fun p => (p.2.drop (i * blockLen ax p.1)).take (blockLen ax p.1)
+
+theorem npConcat_ok (sh0 d0 : List Nat) (rest : List (List Nat × List Nat)) (k : Nat) (hk : k ≤ sh0.length)
+    (hsh : ∀ p ∈ rest, p.1.length = sh0.length ∧ p.1.take (sh0.length - k) = sh0.take (sh0.length - k) ∧
+      p.1.drop (sh0.length - k + 1) = sh0.drop (sh0.length - k + 1)) :
+    npConcat ((sh0, d0) :: rest) k =
+      .ok (sh0.take (sh0.length - k) ++ [(((sh0, d0) :: rest).map fun p => p.1.getD (sh0.length - k) 0).sum] ++
+          sh0.drop (sh0.length - k + 1),
+        joinData (sh0.length - k) (prod (sh0.take (sh0.length - k))) ((sh0, d0) :: rest)) := by
+  have h0 : ¬ sh0.length < k := by omega
+  have hall : (((sh0, d0) :: rest).all fun (sh, _) =>
+      sh.length = sh0.length && sh.take (sh0.length - k) = sh0.take (sh0.length - k) &&
+        sh.drop (sh0.length - k + 1) = sh0.drop (sh0.length - k + 1)) = true := by
+    simp only [List.all_cons, decide_true, Bool.and_self, Bool.true_and, List.all_eq_true]
+    intro p hp
+    obtain ⟨a, b, c⟩ := hsh p hp
+    simp [a, b, c]
+  simp only [npConcat, h0, ↓reduceIte, hall, Bool.not_true, Bool.false_eq_true, foldl_add_sum, Nat.zero_add]
+  congr 2
+  have := interleave_map ((sh0, d0) :: rest) (List.range (prod (sh0.take (sh0.length - k))))
+    (fun p i => (p.2.drop (i * blockLen (sh0.length - k) p.1)).take (blockLen (sh0.length - k) p.1))
+  simp only [List.length_range] at this
+  simp only [blockLen] at this
+  simp only [joinData, blocks_eq, blockLen]
+  exact this
+
+
+theorem WF.chan_len {b : PD} (h : WF b) (h2 : 2 ≤ b.ndim) : (chanList b).length = b.shape.getD (b.ndim - 2) 0 := by
+  cases h with
+  | d1 => simp [PD.ndim] at h2
+  | d2 c n data s0 fs l m hd hl => simp [chanList, PD.ndim, hl]
+  | d3 e c n data s0 fs l ms hd hl hm => simp [chanList, PD.ndim, hl]
+
+theorem WF.meta_len {b : PD} (h : WF b) (h3 : 3 ≤ b.ndim) : (metaList b).length = b.shape.getD (b.ndim - 3) 0 := by
+  cases h with
+  | d1 => simp [PD.ndim] at h3
+  | d2 => simp [PD.ndim] at h3
+  | d3 e c n data s0 fs l ms hd hl hm => simp [metaList, PD.ndim, hm]
+
+theorem sum_map_congr {α} (f g : α → Nat) : ∀ (l : List α), (∀ x ∈ l, f x = g x) → (l.map f).sum = (l.map g).sum
+  | [], _ => rfl
+  | x :: xs, h => by
+    simp only [List.map_cons, List.sum_cons, h x (by simp), sum_map_congr f g xs (fun y hy => h y (by simp [hy]))]
+
+theorem concat_adjacent_core (dim : Dim) (base : PD) (rest : List PD) (hwf : ∀ b ∈ base :: rest, WF b)
+    (hnd : ∀ b ∈ base :: rest, b.ndim = base.ndim) (hk : dim.k ≤ base.ndim) (hj : Joinable dim base rest)
+    (hsh : ∀ b ∈ rest, b.shape.take (base.ndim - dim.k) = base.shape.take (base.ndim - dim.k) ∧
+      b.shape.drop (base.ndim - dim.k + 1) = base.shape.drop (base.ndim - dim.k + 1)) :
+    concat (base :: rest) dim = .ok
+      ⟨base.shape.take (base.ndim - dim.k) ++ [((base :: rest).map fun b => b.shape.getD (base.ndim - dim.k) 0).sum] ++
+          base.shape.drop (base.ndim - dim.k + 1),
+        joinData (base.ndim - dim.k) (prod (base.shape.take (base.ndim - dim.k)))
+          ((base :: rest).map fun b => (b.shape, b.data)),
+        base.s0, base.fs, joinChan dim base (base :: rest), joinMeta dim base (base :: rest)⟩ := by
+  have hnp := npConcat_ok base.shape base.data (rest.map fun b => (b.shape, b.data)) dim.k hk (by
+    intro p hp
+    simp only [List.mem_map] at hp
+    obtain ⟨b, hb, rfl⟩ := hp
+    exact ⟨hnd b (by simp [hb]), hsh b hb⟩)
+  rw [concat_eval dim base rest base.ndim hwf hnd hk hj _ _ (by simpa [List.map_cons, PD.ndim] using hnp)]
+  have hcl : ∀ b ∈ base :: rest, 2 ≤ base.ndim → (chanList b).length = b.shape.getD (base.ndim - 2) 0 := by
+    intro b hb h2; have := (hwf b hb).chan_len (by rw [hnd b hb]; exact h2); rwa [hnd b hb] at this
+  have hml : ∀ b ∈ base :: rest, 3 ≤ base.ndim → (metaList b).length = b.shape.getD (base.ndim - 3) 0 := by
+    intro b hb h3; have := (hwf b hb).meta_len (by rw [hnd b hb]; exact h3); rwa [hnd b hb] at this
+  have hsumc : 2 ≤ base.ndim → ((base :: rest).map chanList).flatten.length =
+      ((base :: rest).map fun b => b.shape.getD (base.ndim - 2) 0).sum := by
+    intro h2
+    rw [List.length_flatten, List.map_map]
+    exact sum_map_congr _ _ _ (fun b hb => hcl b hb h2)
+  have hsumm : 3 ≤ base.ndim → ((base :: rest).map metaList).flatten.length =
+      ((base :: rest).map fun b => b.shape.getD (base.ndim - 3) 0).sum := by
+    intro h3
+    rw [List.length_flatten, List.map_map]
+    exact sum_map_congr _ _ _ (fun b hb => hml b hb h3)
+  have hb := hwf base (by simp)
+  cases hb with
+  | d1 n data s0 fs lab m hd =>
+    cases dim with
+    | time => cases lab <;> simp [Function.comp_def, construct, PD.ndim, Dim.k, joinChan, joinMeta]
+    | channel => simp [Dim.k, PD.ndim] at hk
+    | epoch => simp [Dim.k, PD.ndim] at hk
+  | d2 c n data s0 fs l m hd hl =>
+    cases dim with
+    | time => simp [Function.comp_def, construct, PD.ndim, Dim.k, joinChan, joinMeta, shapeM2, hl]
+    | channel =>
+      have := hsumc (by simp [PD.ndim])
+      simp only [PD.ndim, List.length_cons, List.length_nil] at this
+      simp [Function.comp_def, construct, PD.ndim, Dim.k, joinChan, joinMeta, shapeM2] at this ⊢
+      omega
+    | epoch => simp [Dim.k, PD.ndim] at hk
+  | d3 e c n data s0 fs l ms hd hl hm =>
+    cases dim with
+    | time => simp [Function.comp_def, construct, PD.ndim, Dim.k, joinChan, joinMeta, shapeM2, shapeM3, hl, hm]
+    | channel =>
+      have := hsumc (by simp [PD.ndim])
+      simp only [PD.ndim, List.length_cons, List.length_nil] at this
+      simp [Function.comp_def, construct, PD.ndim, Dim.k, joinChan, joinMeta, shapeM2, shapeM3, hm] at this ⊢
+      omega
+    | epoch =>
+      have := hsumm (by simp [PD.ndim])
+      simp only [PD.ndim, List.length_cons, List.length_nil] at this
+      simp [Function.comp_def, construct, PD.ndim, Dim.k, joinChan, joinMeta, shapeM2, shapeM3, hl] at this ⊢
+      omega
+
 end Psi.PData
